@@ -372,6 +372,7 @@ func main() {
 			endToEnd(run, recovery, run.Pick(150, 3000))
 		}
 		joinVersusDisconnect(run, run.Pick(40, 400))
+		staleMember(run, run.Pick(25, 200))
 	})
 
 	if bin := os.Getenv("VERIF_RACE_BIN"); bin != "" && run.Thorough() {
